@@ -252,6 +252,11 @@ func (fr *frame) trySpeculate(instr *ssa.If, cond sym) (didMerge bool, returned 
 			if fr.defers != nil {
 				panic(specAbort{"defers pending"})
 			}
+			if fr.block == blk || !blk.Dominates(fr.block) {
+				// the side leaves the region dominated by the If (e.g. loops
+				// back to a header): SSA values live after the join would differ
+				panic(specAbort{"leaves dominated region"})
+			}
 			cur := fr.block
 			nonPhis := executePhis(fr)
 			ex.steps += int64(len(nonPhis))
@@ -281,6 +286,19 @@ func (fr *frame) trySpeculate(instr *ssa.If, cond sym) (didMerge bool, returned 
 			}
 		}
 		res.arrive = fr.prevBlock
+		if fr.skipPhis {
+			// a nested speculation ended on the join and already assigned
+			// the (merged) phi values: take those
+			fr.skipPhis = false
+			for _, in := range join.Instrs {
+				phi, isPhi := in.(*ssa.Phi)
+				if !isPhi {
+					break
+				}
+				res.phis = append(res.phis, fr.mustLookup(phi))
+			}
+			return res, true
+		}
 		// evaluate the join's phi inputs for this side now
 		pi := -1
 		for n, p := range join.Preds {
@@ -381,7 +399,7 @@ func (fr *frame) trySpeculate(instr *ssa.If, cond sym) (didMerge bool, returned 
 		if !isPhi {
 			break
 		}
-		fr.env[phi] = merged[n]
+		fr.set(phi, merged[n])
 		n++
 	}
 	fr.prevBlock, fr.block = rt.arrive, join
